@@ -475,6 +475,14 @@ def jobs(tier):
             out.append(('pop', 'case_pop', dict(
                 units=[hier.unit(k, 1, nc), hier.unit('gaussian', 1)],
                 n_samples=1, n_ids=2), {}))
+    # several covariate-dependent sub-models: each samples conditional on
+    # its own covariate columns
+    for a, ca, b, cb in (('gaussian', 1, 'lognormal', 1),
+                         ('lognormal_nc', 2, 'gaussian', 1),
+                         ('gaussian', 1, 'pooled', 1)):
+        out.append(('pop', 'case_pop', dict(
+            units=[hier.unit(a, 1, ca), hier.unit(b, 1, cb)], n_samples=2,
+            n_ids=2), {'replay_candidates': 1, 'facts_final': True}))
     for j, k in enumerate(['gaussian', 'lognormal', 'truncgauss',
                            'gaussian_nc']):
         out.append(('pop', 'case_pop', dict(
@@ -490,7 +498,7 @@ def jobs(tier):
 BOUNDS = dict(
     quick='4 error models x n_times 1..2 x n_samples 1..2; 7 population '
           'kinds x n_dim 1..2 x n_samples 1..2 (bare and composed); 5 '
-          'two-unit compositions; covariate variants (1 covariate); reduced '
+          'two-unit compositions; covariate variants (1 covariate; two covariate sub-models in one composition); reduced '
           'variants; moments for n_dim 1..2',
     thorough='n_times, n_samples, n_dim up to 3; all 49 two-unit '
              'compositions; 1-2 covariates',
